@@ -520,9 +520,13 @@ enum class named_class3
 
 std::uint64_t enum_type_counter = 0;
 
+// pts: the start / end values to combine (empty: all of 0 .. N-1)
 template <class E, unsigned N>
-void enum_ranges(std::string const &ename)
+void enum_ranges(std::string const &ename, std::vector<unsigned> pts = {})
 {
+  if (pts.empty())
+    for (unsigned q = 0; q < N; ++q)
+      pts.push_back(q);
   std::string const e = "enum_range<" + ename + ">";
   std::uint64_t const my_index = enum_type_counter++;
   if (!vf::entry_enabled(e))
@@ -536,13 +540,24 @@ void enum_ranges(std::string const &ename)
   auto conv = [](E v) { return static_cast<i128>(static_cast<std::underlying_type_t<E>>(v)); };
   auto const all_walks = {walk::preinc, walk::postinc, walk::rangefor};
   unsigned evals = 0;
-  for (unsigned s = 0; s < N; ++s)
+  for (unsigned const s : pts)
   {
-    for (unsigned en = s; en < N; ++en)
+    for (unsigned const en : pts)
     {
+      if (en < s)
+        continue;
       vf::operands(s, en);
       ++evals;
-      vf::note_distinct(vf::hash_mix(vf::hash_str(e), s * 16 + en));
+      vf::note_distinct(vf::hash_mix(vf::hash_str(e), s * 1024 + en));
+      // An enum that fills its underlying type has one enumerator more than its size_type can count (fcppt::enum_::size<E>
+      // itself is 0 then): the half-open pair (begin, end) cannot tell its WHOLE range from the empty one.  Following the
+      // statement's side condition for sizes, sub-ranges are judged when their enumerator count is representable.
+      using enum_size_type = decltype(std::declval<fcppt::enum_::range<E> const &>().size());
+      if (static_cast<i128>(en) - s + 1 > static_cast<i128>(std::numeric_limits<enum_size_type>::max()))
+      {
+        VF_COUNT("enum_range/observed/count-not-representable-in-size_type(not judged)");
+        continue;
+      }
       fcppt::enum_::range<E> const r = fcppt::enum_::make_range_start_end(static_cast<E>(s), static_cast<E>(en));
       char const *cls = s == en ? "single" : (s == 0 && en == N - 1) ? "whole" : en == N - 1 ? "ends-at-max" : "inner";
       vf::count(std::string("enum_range/class/") + cls);
@@ -550,12 +565,19 @@ void enum_ranges(std::string const &ename)
         judge_arith_sequence(e + "/make_range_start_end/sequence/" + cls, w, r, s, static_cast<i128>(en) - s + 1, 16, conv);
       // size() of an enum range: the statement spells the size clause out for integer ranges; for an enum range the number
       // of enumerators of a closed sub-range always fits, and "the value of size()" is what the property observes - judged
-      VF_COUNT("enum_range/size/judged");
-      if (static_cast<i128>(r.size()) != static_cast<i128>(en) - s + 1)
-        vf::violation(e + "/make_range_start_end/size/" + cls, "mismatch",
+      // (an enum that fills its underlying type: the whole range has one enumerator more than size()'s type can hold)
+      if (static_cast<i128>(en) - s + 1 > static_cast<i128>(std::numeric_limits<decltype(r.size())>::max()))
+        VF_COUNT("enum_range/size/not-representable-not-judged");
+      else
+      {
+        VF_COUNT("enum_range/size/judged");
+        if (static_cast<i128>(r.size()) != static_cast<i128>(en) - s + 1)
+          vf::violation(e + "/make_range_start_end/size/" + cls, "mismatch",
                       "size() of [" + std::to_string(s) + "," + std::to_string(en) + "] is " + s128(static_cast<i128>(r.size())) + ", the range enumerates " +
                           std::to_string(en - s + 1) + " enumerators");
+      }
     }
+    if (static_cast<i128>(N) - s <= static_cast<i128>(std::numeric_limits<decltype(std::declval<fcppt::enum_::range<E> const &>().size())>::max()))
     {
       vf::operands(s, N - 1, 1);
       ++evals;
@@ -563,7 +585,7 @@ void enum_ranges(std::string const &ename)
       VF_COUNT("enum_range/make_range_start");
       for (walk w : all_walks)
         judge_arith_sequence(e + "/make_range_start/sequence", w, r, s, static_cast<i128>(N) - s, 16, conv);
-      if (static_cast<i128>(r.size()) != static_cast<i128>(N) - s)
+      if (static_cast<i128>(N) - s <= static_cast<i128>(std::numeric_limits<decltype(r.size())>::max()) && static_cast<i128>(r.size()) != static_cast<i128>(N) - s)
         vf::violation(e + "/make_range_start/size", "mismatch", "size() is " + s128(static_cast<i128>(r.size())) + " for " + std::to_string(N - s) + " enumerators");
     }
     if (s > 0)
@@ -576,6 +598,7 @@ void enum_ranges(std::string const &ename)
         vf::observation("enum range [s,s-1] over " + ename + " is not empty (observed only)");
     }
   }
+  if (static_cast<i128>(N) <= static_cast<i128>(std::numeric_limits<decltype(std::declval<fcppt::enum_::range<E> const &>().size())>::max()))
   {
     vf::operands(0, N - 1, 2);
     ++evals;
@@ -623,6 +646,14 @@ void enum_ranges_all()
   enum_ranges<named8::type, 8>("named8");
   enum_ranges<named9::type, 9>("named9");
   enum_ranges<named_class3, 3>("named_class3");
+  // enums that use the FULL width of their underlying type: the exclusive end of a sub-range that ends at the maximum
+  // is not a value of the type (it wraps to 0)
+  std::vector<unsigned> const pts8{0, 1, 2, 127, 128, 129, 250, 253, 254, 255};
+  enum_ranges<typename scoped_enum<std::uint8_t, 256>::type, 256>("scoped<u8,256>(full width)", pts8);
+  std::vector<unsigned> const pts7{0, 1, 2, 63, 64, 120, 125, 126, 127};
+  enum_ranges<typename scoped_enum<std::int8_t, 128>::type, 128>("scoped<i8,128>(full positive width)", pts7);
+  std::vector<unsigned> const pts16{0, 1, 255, 256, 32767, 32768, 65530, 65534, 65535};
+  enum_ranges<typename scoped_enum<std::uint16_t, 65536>::type, 65536>("scoped<u16,65536>(full width)", pts16);
 }
 #endif
 
